@@ -1046,6 +1046,46 @@ func runOne(t *testing.T, in input, sc script) *result {
 				_ = s.add(s.nodes["A"], c)
 			}
 		}
+	} else if sc.Shape == "burst" {
+		// a node creates far more transactions between two gossip rounds than the gossip queue holds, then goes quiet
+		s = newSim(t, in, u, res)
+		root := u.add("r", nil, 0, true, false)
+		prev := root
+		common := []*ctx{root}
+		for i := 0; i < 20; i++ {
+			c := u.add(fmt.Sprintf("c%d", i), []string{prev.name}, int(prev.lc)+1, true, false)
+			common = append(common, c)
+			prev = c
+		}
+		for _, n := range in.Nodes {
+			for _, c := range common {
+				if err := s.add(s.nodes[n], c); err != nil {
+					res.Error = err.Error()
+					return res
+				}
+			}
+		}
+		s.connect(in.Links)
+		s.safety("initially")
+		a, b := in.Nodes[0], in.Nodes[1]
+		s.tick(a, b)
+		s.tick(b, a)
+		for len(s.net) > 0 {
+			s.deliver(0, false)
+		}
+		size := sc.Size
+		if size == 0 {
+			size = 150
+		}
+		for i := 0; i < size; i++ {
+			c := u.add(fmt.Sprintf("burst%d", i), []string{prev.name}, int(prev.lc)+1, true, false)
+			if err := s.add(s.nodes[a], c); err != nil {
+				res.Error = err.Error()
+				return res
+			}
+			prev = c
+		}
+		s.safety("after the burst")
 	} else {
 		init, future, invalid := buildShape(u, sc, in.Nodes)
 		s = newSim(t, in, u, res)
